@@ -676,10 +676,13 @@ impl JoinPlanner {
                 }
             }
 
-            // Build output schema (union of variables, shared vars once)
+            // Build the output schema exactly as the join produces it: all left columns, then
+            // every right column that is not a join key. (De-duplicating by NAME would drop the
+            // second column of an atom with a repeated variable such as `d(X, X, W)`, which the
+            // join still emits, and every index derived from the schema would be off by one.)
             let mut output_schema = current_schema.clone();
-            for var in &next_schema {
-                if !output_schema.contains(var) {
+            for (j, var) in next_schema.iter().enumerate() {
+                if !right_keys.contains(&j) {
                     output_schema.push(var.clone());
                 }
             }
